@@ -7,18 +7,14 @@ import (
 	"bytes"
 	"fmt"
 	"math"
-	"reflect"
-	"runtime"
 	"strings"
 	"sync"
 	"sync/atomic"
 	"time"
-	"unsafe"
 
 	"github.com/cnotch/ipchub/av/codec"
 	"github.com/cnotch/ipchub/av/codec/hevc"
 	"github.com/cnotch/ipchub/av/format/flv"
-	"github.com/cnotch/queue"
 	"github.com/cnotch/xlog"
 )
 
@@ -85,92 +81,16 @@ func (f *fwdWriter) WriteFlvTag(t *flv.Tag) error {
 	return nil
 }
 
-// the muxer's private receive queue (needed to wake an idle worker: see waitIdle)
-func muxQueue(m *flv.Muxer) *queue.SyncQueue {
-	defer func() { recover() }()
-	f := reflect.ValueOf(m).Elem().FieldByName("recvQueue")
-	if !f.IsValid() {
-		return nil
-	}
-	return *(**queue.SyncQueue)(unsafe.Pointer(f.UnsafeAddr()))
-}
-
-// workerState looks at the goroutine dump: is there a goroutine running flv.(*Muxer).process, and
-// is it parked in sync.Cond.Wait (inside recvQueue.Pop)?
-func workerState() (present, parked bool) {
-	buf := make([]byte, 1<<16)
-	for {
-		n := runtime.Stack(buf, true)
-		if n < len(buf) {
-			buf = buf[:n]
-			break
-		}
-		buf = make([]byte, 2*len(buf))
-	}
-	for _, blk := range strings.Split(string(buf), "\n\n") {
-		if !strings.Contains(blk, "flv.(*Muxer).process") {
-			continue
-		}
-		present = true
-		head := blk
-		if i := strings.IndexByte(blk, '\n'); i > 0 {
-			head = blk[:i]
-		}
-		if strings.Contains(head, "[sync.Cond.Wait") {
-			parked = true
-		} else {
-			return true, false
-		}
-	}
-	return
-}
-
-// waitIdle returns once the worker has processed every frame pushed so far — the queue is empty
-// and the worker goroutine is parked in Pop — or has died.  No timing assumption: the generous
-// deadline only guards against a hung worker.
-func waitIdle(q *queue.SyncQueue, p *probeCore) string {
-	if q == nil {
-		time.Sleep(30 * time.Millisecond)
+// waitIdle returns once the worker has processed every one of the `pushed` frames — it has come
+// back to its queue pushed+1 times (schedule point flvmuxer.beforePop) — or has died.  The
+// condition is exact; the budget only bounds the wait for a worker that is stuck.
+func waitIdle(pushed int, p *probeCore, budget time.Duration) string {
+	if waitUntil(budget, func() bool {
+		return atomic.LoadInt64(&p.dead) > 0 || hooks.muxReturned() >= pushed+1
+	}) {
 		return ""
 	}
-	deadline := time.Now().Add(30 * time.Second)
-	for i := 0; ; i++ {
-		if atomic.LoadInt64(&p.dead) > 0 {
-			return ""
-		}
-		if q.Len() == 0 {
-			if present, parked := workerState(); present && parked {
-				return ""
-			}
-		}
-		if i < 100 {
-			runtime.Gosched()
-		} else {
-			time.Sleep(20 * time.Microsecond)
-		}
-		if i&255 == 255 && time.Now().After(deadline) {
-			return "hang"
-		}
-	}
-}
-
-// reap makes sure the worker of a finished case is gone before the next case starts (Close's
-// wake-up can be lost when the worker is not waiting yet: repeat the signal)
-func reap(m *flv.Muxer, q *queue.SyncQueue) {
-	m.Close()
-	for i := 0; i < 20000; i++ {
-		if present, _ := workerState(); !present {
-			return
-		}
-		if q != nil {
-			q.Signal()
-		}
-		if i < 50 {
-			runtime.Gosched()
-		} else {
-			time.Sleep(50 * time.Microsecond)
-		}
-	}
+	return "hang"
 }
 
 type muxResult struct {
@@ -197,7 +117,8 @@ func (c *muxCase) audioMeta() *codec.AudioMeta {
 }
 
 // runMux drives flv.NewMuxer + flv.NewWriter with the frames of the case.
-func runMux(c *muxCase) (res muxResult) {
+func runMux(c *muxCase, budget time.Duration) (res muxResult) {
+	hooks.newEpoch(nil)
 	probe := &probeCore{}
 	logger := xlog.New(probe)
 	vm := c.videoMeta(c.known == 0)
@@ -213,18 +134,17 @@ func runMux(c *muxCase) (res muxResult) {
 	w, err := flv.NewWriter(buf, m.TypeFlags())
 	if err != nil {
 		res.newErr = "newwriter"
-		reap(m, muxQueue(m))
+		m.Close()
 		return
 	}
 	fw.mu.Lock()
 	fw.w = w
 	fw.mu.Unlock()
-	q := muxQueue(m)
 	for i := range c.frames {
 		if i == c.known && c.known > 0 {
 			// the depacketizer stores the parameter sets in the shared metadata right before it
 			// forwards the first video frame; everything pushed so far has been processed
-			if waitIdle(q, probe) == "hang" {
+			if waitIdle(i, probe, budget) == "hang" {
 				res.hang = true
 				break
 			}
@@ -233,7 +153,7 @@ func runMux(c *muxCase) (res muxResult) {
 		f := &c.frames[i]
 		m.WriteFrame(&codec.Frame{MediaType: codec.MediaType(f.mt), Dts: f.dts, Pts: f.pts, Payload: f.payload})
 	}
-	if !res.hang && waitIdle(q, probe) == "hang" {
+	if !res.hang && waitIdle(len(c.frames), probe, budget) == "hang" {
 		res.hang = true
 	}
 	res.dead = atomic.LoadInt64(&probe.dead) > 0
@@ -242,7 +162,9 @@ func runMux(c *muxCase) (res muxResult) {
 		res.panicMsg = probe.msgs[0]
 	}
 	probe.mu.Unlock()
-	reap(m, q)
+	// Close wakes the worker through its queue; its goroutine ends by itself and a late event of
+	// it is ignored (hooks.newEpoch)
+	m.Close()
 	res.out = buf.Bytes()
 	fw.mu.Lock()
 	res.tags = fw.tags
